@@ -165,7 +165,7 @@ def handle (op : String) (f : List (List Q)) : String :=
   | "pwc_integral", [x, y, [a, b]] => showOpt (((Pwc.mk x y).integralCode a b).map fun v => [[v]])
   | "pwc_avrg_all", [x, y] => showFields [[(Pwc.mk x y).avrgAll]]
   | "pwc_avrg", [x, y, [a, b]] => showOpt (((Pwc.mk x y).integralCode a b).map fun v => [[v / (b - a)]])
-  | "pwc_avrg_list", [x, y, iv] => showOpt (((Pwc.mk x y).avrgList (pairs iv)).map fun v => [[v]])
+  | "pwc_avrg_list", [x, y, iv] => showOpt (((Pwc.mk x y).avrgListCode (pairs iv)).map fun v => [[v]])
   | "pwc_call", [x, y, ts] => showFields [ts.map (Pwc.mk x y).call]
   | "pwc_call_seq", [x, y, ts] => showFields [ts.map (Pwc.mk x y).callSeq1]
   | "pwc_plot", [x, y] => let r := (Pwc.mk x y).plottable; showFields [r.1, r.2]
@@ -174,7 +174,7 @@ def handle (op : String) (f : List (List Q)) : String :=
   | "pwl_avrg_all", [x, y1, y2] => showFields [[(Pwl.mk x y1 y2).avrgAll]]
   | "pwl_avrg", [x, y1, y2, [a, b]] => showOpt (((Pwl.mk x y1 y2).integralCode a b).map fun v => [[v / (b - a)]])
   | "pwl_avrg_list", [x, y1, y2, iv] =>
-    showOpt (((Pwl.mk x y1 y2).avrgList (pairs iv)).map fun v => [[v]])
+    showOpt (((Pwl.mk x y1 y2).avrgListCode (pairs iv)).map fun v => [[v]])
   | "pwl_call", [x, y1, y2, ts] => showFields [ts.map (Pwl.mk x y1 y2).call]
   | "pwl_call_seq", [x, y1, y2, ts] => showFields [ts.map (Pwl.mk x y1 y2).callSeq1]
   | "pwl_plot", [x, y1, y2] => let r := (Pwl.mk x y1 y2).plottable; showFields [r.1, r.2]
